@@ -135,7 +135,11 @@ class Fn:
         return '/-- %s -/\ndef %s (len_s : Int) %s : Int :=\n%s\n' % (doc, name, sig, body)
 
 
-RESERVED = {'default', 'end', 'from', 'at', 'in', 'then', 'else', 'if', 'let', 'do', 'fun', 'match', 'with', 'have', 'show', 'open'}
+RESERVED = {'default', 'end', 'from', 'at', 'in', 'then', 'else', 'if', 'let', 'do', 'fun', 'match', 'with', 'have', 'show', 'open',
+            'prefix', 'infix', 'infixl', 'infixr', 'postfix', 'notation', 'macro', 'syntax', 'instance', 'class', 'structure',
+            'theorem', 'def', 'where', 'deriving', 'namespace', 'section', 'variable', 'universe', 'import', 'export', 'private',
+            'protected', 'partial', 'unsafe', 'mutual', 'inductive', 'abbrev', 'example', 'axiom', 'by', 'calc', 'using', 'return',
+            'for', 'unless', 'try', 'catch', 'finally', 'mut', 'Type', 'Prop', 'Sort', 'set_option', 'attribute', 'local', 'scoped', 'omit', 'include'}
 
 
 def mangle(n):
